@@ -382,3 +382,15 @@ for _p in ("C05", "C07", "C17"):
     PROPS[_p]["claim"] += _GENDEC_CLAIM
     PROPS[_p]["proofs"] = PROPS[_p]["proofs"] + ["Bmc.Proofs.GenDec.TranslatedOk", "Bmc.Proofs.GenDec.ReserveSDRRepositoryRsp", "Bmc.Proofs.GenDec.GetSystemGUIDRsp", "Bmc.Proofs.GenDec.SetSessionPrivilegeLevelRsp", "Bmc.Proofs.GenDec.GetSDRRsp", "Bmc.Proofs.GenDec.SDR", "Bmc.Proofs.GenDec.GetSensorReadingRsp", "Bmc.Proofs.GenDec.GetChannelCipherSuitesRsp", "Bmc.Proofs.GenDec.GetChannelAuthenticationCapabilitiesRsp", "Bmc.Proofs.GenDec.GetSDRRepositoryInfoRsp", "Bmc.Proofs.GenDec.GetPowerReadingRsp", "Bmc.Proofs.GenDec.GetChassisStatusRsp", "Bmc.Proofs.GenDec.GetDeviceIDRsp", "Bmc.Proofs.GenDec.RAKPMessage4", "Bmc.Proofs.GenDec.RAKPMessage2", "Bmc.Proofs.GenDec.RAKPMessage1", "Bmc.Proofs.GenDec.V1Session", "Bmc.Proofs.GenDec.GetSessionInfoRsp", "Bmc.Proofs.GenDec.OpenSessionRsp", "Bmc.Proofs.GenDec.GetDCMICapabilitiesInfoManageabilityAccessAttrsRsp", "Bmc.Proofs.GenDec.GetDCMICapabilitiesInfoOptionalPlatformAttrsRsp", "Bmc.Proofs.GenDec.GetDCMICapabilitiesInfoSupportedCapabilitiesRsp", "Bmc.Proofs.GenDec.GetDCMICapabilitiesInfoMandatoryPlatformAttrsRsp", "Bmc.Proofs.GenDec.SessionSelector", "Bmc.Proofs.GenDec.Message", "Bmc.Proofs.GenDec.GetDCMICapabilitiesInfoEnhancedSystemPowerStatisticsAttrsRsp", "Bmc.Proofs.GenDec.GetDCMISensorInfoRsp"]
     PROPS[_p]["modelled"] = PROPS[_p]["modelled"] + ["layers decgen gives up on (listed in Gen/Dec.lean: gaveUp, with reasons) stay hand models tied by correspondence only"]
+
+# The regenerated serialisers (tools/encgen -> lean/Bmc/Gen/Enc.lean) and their equality with the hand encoder models
+# (lean/Bmc/Proofs/GenEnc.lean) support C06 and C08 alike.
+GENENC_LAYERS = 17
+_GENENC_CLAIM = (" REGENERATED MODELS: the SerializeTo methods of %d layers are RE-TRANSLATED from the Go source on every run (tools/encgen -> Gen/Enc.lean) over a "
+                 "serialize buffer whose PrependBytes / AppendBytes hand back bytes of INDETERMINATE content, and proved equal to the encoder models the theorems are "
+                 "about for every layer value, every inner payload and every stale content (Proofs/GenEnc.lean: T_enc_eq) - a serialiser that leaves a byte unwritten "
+                 "on one path, swaps two fields or changes a mask breaks a proof obligation at build time." % GENENC_LAYERS)
+for _p in ("C06", "C08"):
+    PROPS[_p]["claim"] += _GENENC_CLAIM
+    PROPS[_p]["proofs"] = PROPS[_p]["proofs"] + ["Bmc.Proofs.GenEnc.TranslatedOk", "Bmc.Proofs.GenEnc.GetSensorReadingReq", "Bmc.Proofs.GenEnc.GetDCMICapabilitiesInfoReq", "Bmc.Proofs.GenEnc.GetDCMISensorInfoReq", "Bmc.Proofs.GenEnc.ChassisControlReq", "Bmc.Proofs.GenEnc.CloseSessionReq", "Bmc.Proofs.GenEnc.GetChannelAuthenticationCapabilitiesReq", "Bmc.Proofs.GenEnc.GetChannelCipherSuitesReq", "Bmc.Proofs.GenEnc.GetSDRReq", "Bmc.Proofs.GenEnc.GetSessionInfoReq", "Bmc.Proofs.GenEnc.SetSessionPrivilegeLevelReq", "Bmc.Proofs.GenEnc.OpenSessionReq", "Bmc.Proofs.GenEnc.RAKPMessage3", "Bmc.Proofs.GenEnc.RAKPMessage1", "Bmc.Proofs.GenEnc.V1Session", "Bmc.Proofs.GenEnc.Message", "Bmc.Proofs.GenEnc.GetPowerReadingReq", "Bmc.Proofs.GenEnc.V2Session"]
+    PROPS[_p]["modelled"] = PROPS[_p]["modelled"] + ["serialisers encgen gives up on (listed in Gen/Enc.lean: gaveUp, with reasons) stay hand models tied by correspondence only"]
